@@ -309,7 +309,7 @@ func runC10(c *checker) {
 		logf("%s: %d runs, %s", b.id(), len(runs), runs[0].outcome())
 	}
 	c.runC10Shapes(helper)
-	c.rep.Rule = fmt.Sprintf("random programs with many includes, types, constants of container/struct type, two services per file (every third with a file named like an imported std/runtime package) × option sets; each generated %d× by the thriftrw binary in fresh processes, %d× in-process with natural map order and %d× in-process under permuted link orders of includes/types/constants/services/functions (compile.CompileWithLinkOrder); observables: success/failure, sha256 of every generated file, the plugin request after canonical renumbering of ids, with the root services in the order of the request's list; plus shape programs (chains of constants of enum/typedef type within and across modules used in containers and defaults; service inheritance through 3–5 modules reached by sibling includes; files sharing a base name with same-named services; packages competing for import names; an umbrella file; helper names of hundreds of characters from containers nested 5–10 levels over long struct names) with many more natural-order runs each; known findings D10/D21 are replayed from the corpus as probes; non-trivial = every program; distinct by (seed, options)", n, natural, perms)
+	c.rep.Rule = fmt.Sprintf("random programs with many includes, types, constants of container/struct type, two services per file (every third with a file named like an imported std/runtime package) × option sets; each generated %d× by the thriftrw binary in fresh processes, %d× in-process with natural map order and %d× in-process under permuted link orders of includes/types/constants/services/functions (compile.CompileWithLinkOrder); observables: success/failure, sha256 of every generated file, the plugin request after canonical renumbering of ids, with the root services in the order of the request's list; plus shape programs (chains of constants of enum/typedef type within and across modules used in containers and defaults; service inheritance through 3–5 modules reached by sibling includes; files sharing a base name with same-named services; packages competing for import names; an umbrella file; helper names of hundreds of characters from containers nested 5–10 levels over long struct names; typedef chains that close through a struct; names equal up to the zero padding of a number) with many more natural-order runs each; known findings D10/D21 are replayed from the corpus as probes; non-trivial = every program; distinct by (seed, options)", n, natural, perms)
 }
 
 func init() { modes["C10"] = runC10 }
